@@ -375,6 +375,20 @@ CHECKS["C04"] = dict(
     technique="TLA+ declaration-order spec + TLC trace validation of events extracted from the real written code",
     design_ref="DESIGN.md section 4 C04, F.10", engine="DeclOrder")
 
+CHECKS["C10"] = dict(
+    level="model_checking",
+    text=("DirectiveTree.tla: routine skeletons (perfect/imperfect/triangular nests), Apply (predicted effect of "
+          "each of 14 OpenMP/OpenACC transformations with options), Valid = the OpenMP 5.0 / OpenACC 3.0 nesting, "
+          "ownership and collapse rules (calibrated against gfortran -fopenmp -fopenacc). TLC enumerates all "
+          "transformation histories (69 615 quick: length <= 2 over the full alphabet on 5 skeletons, length <= 3 "
+          "over the core alphabet); each is replayed on REAL PSyIR with the real transformations and a fresh "
+          "FortranWriter; the written text is itemised into the abstract directive tree (cross-checked against "
+          "the PSyIR projection) and TLC decides Written => Valid per case, naming every violated rule."),
+    note=("Trusted: the text itemiser and the transcription of the OpenMP/OpenACC rules (two rules are stricter "
+          "than gfortran 12 and say so in the evidence). 18 genuine defect shapes in findings.d/C10.json."),
+    technique="TLA+ directive-tree spec + TLC-enumerated histories replayed on the real code + TLC validation of the written directives",
+    design_ref="DESIGN.md section 4 C10, F.7", engine="DirectiveTree")
+
 NOT_YET = {}
 
 ALL = [f"C{i:02d}" for i in range(1, 30)]
